@@ -159,7 +159,7 @@ func (e *SyncedCachedEnforcer) InvalidateCache() error {
 }
 
 func (e *SyncedCachedEnforcer) checkOneAndRemoveCache(params ...interface{}) (bool, error) {
-	key, ok := e.getKey(params...)
+	key, ok := e.getKey(ruleParams(params)...)
 	if ok {
 		if err := e.cache.Delete(key); err != nil && err != cache.ErrNoSuchKey {
 			return false, err
